@@ -3,6 +3,7 @@
 -/
 import CM.Model.JoinBag
 import CM.Proofs.FactoryChain
+import CM.Proofs.JoinBag
 import CM.Props.C16
 namespace CM.C16
 open CM
@@ -57,6 +58,55 @@ theorem node_join_container {l r0 b : Bag} {on : List String} {how : String} {ca
                 have := hon
                 simp only [List.any_eq_true, not_exists, not_and, Bool.or_eq_true, beq_iff_eq, not_or] at this
                 exact this x hx
+      · cases h
+    · cases h
+
+
+/-- **Node level: every key field of a `Join` is a `SwitchBranch` over both sides.**  For every field `x` the join is made on, the container has an output
+`x` produced by `SwitchBranch(new id, mapping, left x, right x)`, `left x` / `right x` being the outputs of that name of the two sides. -/
+theorem node_join_key_fields {l r0 b : Bag} {on : List String} {how : String} {cached : Bool} (h : joinBag l r0 on how cached = .ok b) :
+    ∀ x ∈ on, ∃ loc a c, loc ∈ b.outputs ∧ loc.name = x ∧ a ∈ l.outputs ∧ a.name = x ∧ c ∈ (r0.shift l.next).outputs ∧ c.name = x ∧
+      ({ edge := .switchBranch, ins := [⟨(r0.shift l.next).next + 3, "id"⟩, ⟨(r0.shift l.next).next + 2, "$mapping"⟩, a, c], out := loc } : BEdge) ∈ b.edges := by
+  intro x hx
+  unfold joinBag at h
+  simp only [] at h
+  split at h
+  · cases h
+  · split at h
+    · rename_i lk rk hl hr
+      split at h
+      · rename_i kl kr hkl hkr
+        split at h
+        · cases h
+        · split at h
+          · cases h
+          · split at h
+            · cases h
+            · rename_i hsub
+              split at h
+              · cases h
+              · obtain ⟨_, hed⟩ := mkBag_inputs_edges h
+                have hout := mkBag_outputs h
+                -- `x` is a field of both sides
+                have hin : x ∈ (names (l.outputs.filter fun o => o.name != "ids" && o.name != lk.name)).filter
+                    (names ((r0.shift l.next).outputs.filter fun o => o.name != "ids" && o.name != rk.name)).contains := by
+                  have := hsub
+                  simp only [List.any_eq_true, not_exists, not_and, Bool.not_eq_true', Bool.not_eq_false'] at this
+                  have hc := this x hx
+                  simpa using hc
+                obtain ⟨hxl, hxr⟩ := List.mem_filter.1 hin
+                obtain ⟨a, ha⟩ := byName_exists hxl
+                obtain ⟨c, hc⟩ := byName_exists (List.contains_iff_mem.1 hxr)
+                obtain ⟨i, hi⟩ := zip_range_mem on x hx
+                have ha' := byName_some ha
+                have hc' := byName_some hc
+                refine ⟨⟨(r0.shift l.next).next + 8 + i, x⟩, a, c, hout _ ?_, rfl, (List.mem_filter.1 ha'.1).1, ha'.2,
+                  (List.mem_filter.1 hc'.1).1, hc'.2, hed _ ?_⟩
+                · simp only [List.mem_append, List.mem_map]
+                  exact Or.inl (Or.inl (Or.inr ⟨(i, x), hi, rfl⟩))
+                · simp only [List.mem_append, List.mem_filterMap, List.mem_map]
+                  refine Or.inl (Or.inl (Or.inr ⟨⟨(r0.shift l.next).next + 8 + i, x⟩, ⟨(i, x), hi, rfl⟩, ?_⟩))
+                  simp only [ha, hc]
       · cases h
     · cases h
 
